@@ -151,7 +151,7 @@ func vxTemplates() []vxTemplate {
 			},
 			edb: []ast.PredicateSym{vxP("pos", 1)}, idb: []ast.PredicateSym{vxP("win", 1), vxP("lose", 1), vxP("step", 1), vxP("hop", 1)},
 		},
-		{ // 13: structured values built separately must join, negate and compare by structure (not identity)
+		{ // 14 is appended below; 13: structured values built separately must join, negate and compare by structure (not identity)
 			name: "structured-join",
 			rules: []ast.Clause{
 				vxRule(vxA("pr", "P"), vxA("e", "X", "Y"), ast.Eq{Left: ast.Variable{Symbol: "P"}, Right: vxFn(symbols.Pair, "X", "Y")}),
@@ -165,6 +165,17 @@ func vxTemplates() []vxTemplate {
 			edb: []ast.PredicateSym{vxP("e", 2)},
 			idb: []ast.PredicateSym{vxP("pr", 1), vxP("sw", 1), vxP("both", 1), vxP("only", 1), vxP("ne", 2), vxP("ls", 2), vxP("same", 2)},
 			enum: 3,
+		},
+		{ // 14: two negated atoms written before the atoms that bind their variables (released at different premises)
+			name: "two-early-negations",
+			rules: []ast.Clause{
+				vxRule(vxA("exx", "X"), vxA("e", "X", "_")),
+				vxRule(vxA("exy", "Y"), vxA("e", "_", "Y")),
+				vxRule(vxA("pick", "X", "Y"), vxNot(vxA("exy", "Y")), vxNot(vxA("exx", "X")), vxA("cx", "X"), vxA("cy", "Y")),
+				vxRule(vxA("pick2", "X", "Y"), vxNot(vxA("exx", "X")), vxNot(vxA("exy", "Y")), vxA("cy", "Y"), vxA("cx", "X")),
+			},
+			edb: []ast.PredicateSym{vxP("e", 2), vxP("cx", 1), vxP("cy", 1)},
+			idb: []ast.PredicateSym{vxP("exx", 1), vxP("exy", 1), vxP("pick", 2), vxP("pick2", 2)},
 		},
 	}
 }
